@@ -17,7 +17,10 @@ import itertools
 import json
 import os
 import random
+import signal
 import sys
+import time
+from contextlib import contextmanager
 from collections import Counter
 from types import FunctionType, MethodType
 from typing import Any
@@ -183,9 +186,25 @@ LocalR = mk_reader()
 LocalW = mk_writer()
 NESTED = [Reader.Setting, Writer.Setting, LocalR, LocalW]
 
+# factories whose body raises (after CPython's arity check): a function with a dependency, a class, a parameterless function
+def boom23(a: S0):
+	raise NotImplementedError('boom23')
+
+
+class Boom24:
+	def __init__(self, a: S1):
+		raise NotImplementedError('Boom24')
+
+
+def boom25():
+	raise NotImplementedError('boom25')
+
+
+RAISING = [boom23, Boom24, boom25]
+
 FACTORIES = [K0, K1, fn2, fn3, bm4, bm5, co6, co7, clo8, clo9, dup10, dup11, lam12, lam13, fn14, K15, fn16, fn17, fn18,
-	Reader.Setting, Writer.Setting, LocalR, LocalW]
-BY_NAME = ['K0', 'K1', 'fn2', 'fn3', 'bm4', 'co6', 'clo8', 'clo9', 'dup10', 'dup11', 'lam12', 'fn14', 'K15', 'fn16', 'fn17']
+	Reader.Setting, Writer.Setting, LocalR, LocalW, boom23, Boom24, boom25]
+BY_NAME = ['K0', 'K1', 'fn2', 'fn3', 'bm4', 'co6', 'clo8', 'clo9', 'dup10', 'dup11', 'lam12', 'fn14', 'K15', 'fn16', 'fn17', 'boom23', 'boom25']
 '''
 
 TY_STR = 100
@@ -216,6 +235,48 @@ DEVIATION_WHAT = {
 
 
 # ---------------------------------------------------------------------------------------------
+# budgets: no real-code call may hang the check
+
+
+class BudgetExceeded(BaseException):
+	"""raised by the interval timer inside a real-code call (BaseException: the per-op `except Exception` must not swallow it)"""
+
+
+@contextmanager
+def budget(seconds: float):
+	def on_alarm(signum: int, frame: Any) -> None:
+		raise BudgetExceeded()
+	old = signal.signal(signal.SIGALRM, on_alarm)
+	signal.setitimer(signal.ITIMER_REAL, seconds)
+	try:
+		yield
+	finally:
+		signal.setitimer(signal.ITIMER_REAL, 0)
+		signal.signal(signal.SIGALRM, old)
+
+
+CASE_BUDGET_S = 3.0       # one op sequence on the real containers (normally a few milliseconds)
+PRODUCTION_BUDGET_S = 45.0  # one real production run (normally 1-3 s)
+
+
+PRODUCTION_STATE = {'timed_out': False}
+
+
+def private_dicts(di: Any) -> list[tuple[str, Any]]:
+	return [(k, v) for k, v in vars(di).items() if isinstance(v, dict)]
+
+
+def aliased_with(new: Any, others: list[Any]) -> list[str]:
+	"""names of private dictionaries of `new` that are the same object as a dictionary of another container"""
+	out = []
+	for name, d in private_dicts(new):
+		for j, other in enumerate(others):
+			if other is not new and any(d is d2 for _, d2 in private_dicts(other)):
+				out.append(f'{name.split("__")[-1]}@c{j}')
+	return out
+
+
+# ---------------------------------------------------------------------------------------------
 # scratch world (real factories and symbol classes, importable by name)
 
 
@@ -232,6 +293,7 @@ class World:
 		self.syms: dict[int, type] = {**dict(enumerate(self.mod.SYMS)), **{NESTED_FROM + i: c for i, c in enumerate(self.mod.NESTED)}}
 		self.factories: list[Any] = list(self.mod.FACTORIES)
 		self.by_name: list[str] = list(self.mod.BY_NAME)
+		self.raising: set[int] = {i for i, f in enumerate(self.factories) if any(f is r for r in self.mod.RAISING)}
 		self.sym_index = {s: i for i, s in self.syms.items()}
 		self.sym_index[str] = TY_STR
 		self.sym_index[int] = TY_INT
@@ -311,7 +373,7 @@ def sym_txt(s: tuple[int, bool]) -> str:
 def fac_txt(w: World, fid: int) -> str:
 	_, params = w.desc[fid]
 	ps = ','.join('_' if p is None else sym_txt(p) for p in params) or '-'
-	return f"f{fid}/{w.aid[fid]}/{ps}"
+	return f"{'r' if fid in w.raising else 'f'}{fid}/{w.aid[fid]}/{ps}"
 
 
 def inj_txt(w: World, inj: tuple) -> str:
@@ -385,29 +447,43 @@ def run_real(w: World, ops: list[tuple]) -> list[str]:
 			return f'{SCRATCH_NAME}.{w.by_name[name]}'
 		return f'{SCRATCH_NAME}.nope{name}' if target == 'attr' else f'c19_nomod{name}.f'
 
+	def created(di: Any) -> str:
+		# the law "a container made by _clone / combine / instantiate owns its dictionaries" is observed right here
+		conts.append(di)
+		shared = aliased_with(di, conts)
+		return f'c{len(conts) - 1}' + (f'!shares-dict:{",".join(shared)}' if shared else '')
+
+	try:
+		with budget(CASE_BUDGET_S):
+			_run_real_ops(w, ops, conts, out, injector, created)
+	except BudgetExceeded:
+		out.extend(['Timeout'] * (len(ops) - len(out)))
+	return out
+
+
+def _run_real_ops(w: World, ops: list[tuple], conts: list[Any], out: list[str], injector: Any, created: Any) -> None:
+	from rogw.tranp.lang.di import DI, LazyDI
+
 	for op in ops:
 		k = op[0]
 		try:
 			if k == 'reset':
 				w.reset()
-				conts = []
+				conts.clear()
 				out.append('ok')
 			elif k == 'raw':
 				out.append('bad-op')
 			elif k == 'new':
 				if op[1] == 'di':
-					conts.append(DI())
+					out.append(created(DI()))
 				else:
-					conts.append(LazyDI.instantiate({w.sym_path(s): injector(inj) for s, inj in op[2]}))
-				out.append(f'c{len(conts) - 1}')
+					out.append(created(LazyDI.instantiate({w.sym_path(s): injector(inj) for s, inj in op[2]})))
 			elif k in ('clone', 'combine') and any(i >= len(conts) for i in op[1:]):
 				out.append('bad-op')
 			elif k == 'clone':
-				conts.append(conts[op[1]]._clone())
-				out.append(f'c{len(conts) - 1}')
+				out.append(created(conts[op[1]]._clone()))
 			elif k == 'combine':
-				conts.append(conts[op[1]].combine(conts[op[2]]))
-				out.append(f'c{len(conts) - 1}')
+				out.append(created(conts[op[1]].combine(conts[op[2]])))
 			elif op[1] >= len(conts):
 				out.append('bad-op')
 			else:
@@ -432,7 +508,6 @@ def run_real(w: World, ops: list[tuple]) -> list[str]:
 					raise AssertionError(op)
 		except Exception as e:  # noqa: BLE001
 			out.append(exc_enum(e))
-	return out
 
 
 # ---------------------------------------------------------------------------------------------
@@ -528,6 +603,9 @@ class Reference:
 				raise RefError('ValueError')
 		if len(curried) + len(args) != len(params):
 			raise RefError('TypeError')
+		if fid in self.w.raising:
+			# the body of the factory raises: no object, nothing stored by the caller
+			raise RefError('NotImplementedError')
 		obj = (self.serial, fid, tuple([f'i{o[0]}' for o in curried] + [f'x{i}' for i, _ in args]))
 		self.serial += 1
 		return obj
@@ -892,7 +970,11 @@ def stream_di(ctx: Ctx, w: World) -> Stream:
 		cases.append(({'kind': 'corpus', 'name': name, 'ops': full}, [op_line(w, o) for o in full], run_real(w, full)))
 	n = ctx.scale(2500, 9000)
 	max_ops = ctx.scale(30, 200)
+	deadline = time.time() + ctx.scale(40, 300)
 	for i in range(n):
+		if time.time() > deadline:
+			hist_out['skipped-by-deadline'] += n - i
+			break
 		ops = [('reset',), *gen_case(w, rng, max_ops if i % 4 else max(8, max_ops // 3), search=False)]
 		real = run_real(w, ops)
 		for o in real:
@@ -1056,6 +1138,8 @@ def production_run(ctx: Ctx, rng: random.Random, n_sources: int, n_modules: int)
 	from rogw.tranp.syntax.ast.entrypoints import Entrypoints
 	from rogw.tranp.syntax.ast.parser import SourceProvider
 
+	if PRODUCTION_STATE['timed_out']:
+		raise RuntimeError('an earlier production run of this check did not finish within its budget; not started again')
 	log = ProdLog()
 	main = module_path_dummy().path
 	src = {'v': ''}
@@ -1251,7 +1335,15 @@ def stream_wiring(ctx: Ctx) -> Stream:
 	expect_pre = [('resolve', name[k]) for k in r['pre']]
 	expect_tail = [('rebind', name[r['locator']]), ('rebind', name[r['invoker']]), ('bind', name[r['modulePath']]), ('resolve', name[r['entrypoint']])]
 	dep_paths = {name[k]: text for k, _, (_, text, _) in t['deps']}
-	log, shared = production_run(ctx, ctx.sub_rng('wiring'), 1, ctx.scale(2, 4))
+	try:
+		with budget(PRODUCTION_BUDGET_S):
+			log, shared = production_run(ctx, ctx.sub_rng('wiring'), 1, ctx.scale(2, 4))
+	except (BudgetExceeded, Exception) as e:  # noqa: BLE001
+		if isinstance(e, BudgetExceeded):
+			PRODUCTION_STATE['timed_out'] = True
+		st.cases = 1
+		st.disagreements.append({'case': {'kind': 'wiring'}, 'op_index': 0, 'op': 'production run', 'real': f'{type(e).__name__}: {str(e)[:300]}', 'model': 'runs', 'ops': []})
+		return st
 	ents = log.entries
 
 	def sig(e: Any) -> tuple[str, str]:
@@ -1288,9 +1380,24 @@ def stream_production(ctx: Ctx, w: World) -> Stream:
 	rng = ctx.sub_rng('production')
 	st = Stream('di-production')
 	hist: Counter[str] = Counter()
+	deadline = time.time() + ctx.scale(60, 300)
 	for i in range(ctx.scale(2, 6)):
-		desc, lines, real = production_case(ctx, w, rng, ctx.scale(1, 2), ctx.scale(2, 4), ctx.scale(150, 600))
-		model = canon_model_production(lines, common.lean_driver('di', lines))
+		if time.time() > deadline:
+			hist['skipped-by-deadline'] += 1
+			continue
+		try:
+			with budget(PRODUCTION_BUDGET_S):
+				desc, lines, real = production_case(ctx, w, rng, ctx.scale(1, 2), ctx.scale(2, 4), ctx.scale(150, 600))
+		except BudgetExceeded:
+			PRODUCTION_STATE['timed_out'] = True
+			st.cases += 1
+			st.disagreements.append({'case': {'kind': 'production', 'case_index': i}, 'op_index': 0, 'op': 'production run', 'real': f'no result within {PRODUCTION_BUDGET_S}s', 'model': 'terminates', 'ops': []})
+			continue
+		except Exception as e:  # noqa: BLE001 - real module loading (or its translation) failed: reported, never a crash
+			st.cases += 1
+			st.disagreements.append({'case': {'kind': 'production', 'case_index': i}, 'op_index': 0, 'op': 'production run', 'real': f'{exc_enum(e)}: {str(e)[:300]}', 'model': 'runs', 'ops': []})
+			continue
+		model = canon_model_production(lines, common.lean_driver('di', lines, timeout=300))
 		st.cases += 1
 		st.distinct += 1
 		for k, v in desc['kinds'].items():
@@ -1334,7 +1441,11 @@ def first_diff(a: list[str], b: list[str]) -> int:
 
 def shrink_for(w: World, ops: list[tuple], key: str | None) -> list[tuple]:
 	"""ddmin on the op list; candidate sequences whose container numbering breaks are rejected by the predicate itself"""
+	stop_at = time.time() + 20
+
 	def fails(cand: list[tuple]) -> bool:
+		if time.time() > stop_at:
+			return False
 		real = run_real(w, cand)
 		if 'bad-op' in real:
 			return False
@@ -1358,7 +1469,11 @@ def search_reference(ctx: Ctx, w: World) -> SearchResult:
 	todo: list[tuple[str, list[tuple]]] = [(f'corpus:{name}', ops) for name, ops in load_corpus()]
 	for i in range(n):
 		todo.append((f'random#{i}', gen_case(w, rng, max_ops if i % 3 else max(8, max_ops // 3), search=True)))
-	for name, ops in todo:
+	deadline = time.time() + ctx.scale(40, 300)
+	for idx, (name, ops) in enumerate(todo):
+		if time.time() > deadline:
+			hist['skipped-by-deadline'] += len(todo) - idx
+			break
 		res.cases += 1
 		seen.add(json.dumps(ops))
 		real = run_real(w, ops)
@@ -1374,7 +1489,10 @@ def search_reference(ctx: Ctx, w: World) -> SearchResult:
 			# enough concrete failing inputs recorded; the classification costs up to 31 reference runs per case
 			hist['divergence (not classified: budget)'] += 1
 			continue
-		explained, ex = exhibited(w, ops[:at + 1], real[:at + 1])
+		if 'Timeout' in real:
+			explained, ex = True, ['real-code-timeout']
+		else:
+			explained, ex = exhibited(w, ops[:at + 1], real[:at + 1])
 		if not explained:
 			keys = ['unexplained-divergence']
 		else:
@@ -1384,14 +1502,18 @@ def search_reference(ctx: Ctx, w: World) -> SearchResult:
 			per_key[key] += 1
 			if per_key[key] > 1:
 				continue
-			if name.startswith('corpus:'):
+			if key == 'real-code-timeout':
+				small = ops[:at + 1]
+			elif name.startswith('corpus:'):
 				small = ops
 			else:
 				small = shrink_for(w, ops[:at + 1] if key == 'unexplained-divergence' else ops, None if key == 'unexplained-divergence' else key)
 			sreal = run_real(w, small)
 			sideal = run_ref(w, small, IDEAL)
 			j = first_diff(sreal, sideal)
-			what = ('RETURN OF A REPAIRED DEFECT: ' + DEVIATION_WHAT[key]) if key in DEVIATION_WHAT else 'the real container and the reference model disagree (no repaired defect explains it)'
+			what = (('RETURN OF A REPAIRED DEFECT: ' + DEVIATION_WHAT[key]) if key in DEVIATION_WHAT
+				else f'an op sequence did not finish on the real containers within {CASE_BUDGET_S}s' if key == 'real-code-timeout'
+				else 'the real container and the reference model disagree (no repaired defect explains it)')
 			res.findings.append(Finding(key=key, what=f'{what}; first seen in {name}: op {j} `{op_line(w, small[j]) if j >= 0 else "?"}` real={sreal[j] if j >= 0 else "?"} reference={sideal[j] if j >= 0 else "?"}',
 				replay={'ops': [op_to_json(o) for o in small], 'op_lines': [op_line(w, o) for o in small], 'real': sreal, 'reference': sideal, 'from': name}))
 	res.distinct = len(seen)
@@ -1412,7 +1534,12 @@ def search_production(ctx: Ctx) -> SearchResult:
 		res.cases += 1
 		res.distinct += 1
 		try:
-			log, shared = production_run(ctx, rng, ctx.scale(1, 2), ctx.scale(2, 5))
+			with budget(PRODUCTION_BUDGET_S):
+				log, shared = production_run(ctx, rng, ctx.scale(1, 2), ctx.scale(2, 5))
+		except BudgetExceeded:
+			PRODUCTION_STATE['timed_out'] = True
+			res.findings.append(Finding(key='production-run-timeout', what=f'real module loading on the logging containers did not finish within {PRODUCTION_BUDGET_S}s', replay={'run': i}))
+			break
 		except Exception as e:  # noqa: BLE001
 			res.findings.append(Finding(key='production-run-raises', what=f'real module loading failed on the logging containers: {exc_enum(e)}: {e}', replay={'run': i}))
 			break
@@ -1428,7 +1555,7 @@ def search_production(ctx: Ctx) -> SearchResult:
 			if not any(f.key == key for f in res.findings):
 				res.findings.append(Finding(key=key, what=what, replay={'run': i, 'container_ops_without_invoke': ops_txt}))
 
-		shared_inst = shared._DI__instances
+		shared_inst = getattr(shared, '_DI__instances', {})
 		for m in modules:
 			try:
 				if m.resolve(Locator) is not m:
@@ -1438,23 +1565,30 @@ def search_production(ctx: Ctx) -> SearchResult:
 					finding('production-closure-wrong-container', f'Invoker resolved through per-module container c{m.cid} is bound to another container')
 			except Exception as e:  # noqa: BLE001
 				finding('production-closure-wrong-container', f'Locator/Invoker cannot be resolved through per-module container c{m.cid}: {exc_enum(e)}')
-			for symbol, inst in m._DI__instances.items():
-				path = f'{symbol.__module__}.{symbol.__qualname__}'
-				hist['module-instances'] += 1
-				if path in local_paths or symbol in (Locator, Invoker) or not shared.can_resolve(symbol):
-					# module-local: one object per module container, unknown to the shared container
-					hist['module-local'] += 1
-					if path in local_paths and shared.can_resolve(symbol):
-						finding('production-module-local-leak', f'module-local symbol {path} is known to the shared container')
-					for other in modules:
-						if other is not m and other._DI__instances.get(symbol) is inst and symbol not in (Locator, Invoker):
-							finding('production-module-local-leak', f'module-local {path}: containers c{m.cid} and c{other.cid} hold the same object')
-				else:
-					# defined by the shared container: production must have resolved it there before the combine
-					hist['shared-singleton'] += 1
-					if shared_inst.get(symbol) is not inst:
-						finding('production-shared-singleton-split', f'{path} has a private instance in per-module container c{m.cid} '
-							f'({"shared container holds another one" if symbol in shared_inst else "the shared container has none"}): it was first resolved through the module container')
+			try:
+				for symbol, inst in list(getattr(m, '_DI__instances', {}).items()):
+					path = f'{symbol.__module__}.{symbol.__qualname__}'
+					hist['module-instances'] += 1
+					if path in local_paths or symbol in (Locator, Invoker) or not shared.can_resolve(symbol):
+						# module-local: one object per module container, unknown to the shared container
+						hist['module-local'] += 1
+						if path in local_paths and shared.can_resolve(symbol):
+							finding('production-module-local-leak', f'module-local symbol {path} is known to the shared container')
+						for other in modules:
+							if other is not m and other._DI__instances.get(symbol) is inst and symbol not in (Locator, Invoker):
+								finding('production-module-local-leak', f'module-local {path}: containers c{m.cid} and c{other.cid} hold the same object')
+					else:
+						# defined by the shared container: production must have resolved it there before the combine
+						hist['shared-singleton'] += 1
+						if shared_inst.get(symbol) is not inst:
+							finding('production-shared-singleton-split', f'{path} has a private instance in per-module container c{m.cid} '
+								f'({"shared container holds another one" if symbol in shared_inst else "the shared container has none"}): it was first resolved through the module container')
+			except Exception as e:  # noqa: BLE001 - the law could not even be evaluated on the real containers
+				finding('production-law-check-raises', f'checking the instances of per-module container c{m.cid} raised {exc_enum(e)}: {str(e)[:200]}')
+			# the containers own their dictionaries
+			shared_dicts = aliased_with(m, [c for c in log.conts if c is not m])
+			if shared_dicts:
+				finding('production-shared-dict-object', f'per-module container c{m.cid} shares a dictionary object with another container: {shared_dicts}')
 	res.histogram = dict(hist)
 	res.note = ('after real Modules.load / Entrypoints.load: every instance a per-module container holds is either module-local (distinct object per module, symbol '
 		'unknown to the shared container) or the very object the shared container holds; Locator / Invoker resolved through a module container are that container / '
@@ -1491,6 +1625,8 @@ STATEMENTS = {
 	'production_locals_isolated': 'on the shipped wiring the shared container does not know Entry/Query/NodeResolver/Entrypoint/ModulePath, the two module containers hold different instances of each, Locator/Invoker of container k are the closures over k',
 	'production_no_private_copies': 'on the shipped wiring, after the loads, every instance a module container holds for a non-local symbol is the instance the shared container holds (production does not use late sharing)',
 	'invoke_sees_current_bindings': 'two reachable states with equal abstract state (bindings, instances, counter) react identically to every op whatever was invoked before: the annotation cache is invisible also under later bind/unbind',
+	'invoke_raising': 'invoke of a factory whose body raises never returns an object',
+	'resolve_raising': 'resolve of a symbol bound or lazily defined to a factory whose body raises fails, stores nothing for the symbol and keeps its binding (the factory is called again next time), at any nesting depth',
 	'fuel_sufficient': 'fuel is only a device: if the bindings of the history respect a rank (acyclic factory graph), resolve/invoke with more fuel than the rank never yields RecursionError',
 }
 
@@ -1525,7 +1661,7 @@ def run(ctx: Ctx) -> int:
 		},
 		assumptions=[
 			'symbol classes have pairwise different full names __module__ + __qualname__ (so LazyDI\'s path keys and DI\'s class keys are in bijection); module-level classes are importable by that path, nested / function-local classes (model ids >= 500) are not: a LazyDI definition of such a class is visible but resolve raises ModuleNotFoundError (modelled)',
-			'factories take positional parameters without defaults and do not touch containers themselves; remaining arguments are direct instances of the expected class or not (no subclass relations)',
+			'factories take positional parameters without defaults and do not touch containers themselves; a factory either always raises (modelled: flag `raises`, stream with raising functions/classes) or returns a fresh object; remaining arguments are direct instances of the expected class or not (no subclass relations)',
 			'generation numbers of the Spec are expressed as trace properties (no bind/rebind/unbind of the symbol in between) instead of a counter in the state',
 		],
 		trusted=['inspect.signature as the independent description of the scratch factories'])
